@@ -61,9 +61,11 @@ func (u *Unit) contractEnv(st *State, fr *Frame, c *FuncContract, params []Val, 
 
 func (u *Unit) contractEnvFn(fn *ssa.Function, params []Val, bind []Val, results []Val, old *State) *SpecEnv {
 	env := &SpecEnv{vars: map[string]Val{}, old: old, fn: fn, pkg: u.pkgOf(fn)}
+	env.vars["self"] = Val{T: fn.Type(), Terms: []Term{sInt(int64(u.fnID(fn)))}, Fn: &FnVal{Fn: fn}}
 	for i, p := range fn.Params {
 		if i < len(params) {
 			env.vars[p.Name()] = params[i]
+			env.vars[fmt.Sprintf("arg%d", i)] = params[i]
 		}
 	}
 	for i, fv := range fn.FreeVars {
@@ -92,6 +94,7 @@ func (u *Unit) sigEnv(sig *types.Signature, recv *Val, params []Val, results []V
 	env := &SpecEnv{vars: map[string]Val{}, old: old, pkg: pkg}
 	if recv != nil {
 		env.vars["recv"] = *recv
+		env.vars["self"] = *recv
 		if sig.Recv() != nil && sig.Recv().Name() != "" {
 			env.vars[sig.Recv().Name()] = *recv
 		}
@@ -275,6 +278,14 @@ func (u *Unit) objVal(st *State, o types.Object) (Val, bool) {
 				return boolVal("true"), true
 			}
 			return boolVal("false"), true
+		}
+	case *types.Func:
+		if x.Pkg() != nil {
+			if sp := u.eng.prog.Package(x.Pkg()); sp != nil {
+				if fn, ok := sp.Members[x.Name()].(*ssa.Function); ok {
+					return Val{T: fn.Type(), Terms: []Term{sInt(int64(u.fnID(fn)))}, Fn: &FnVal{Fn: fn}}, true
+				}
+			}
 		}
 	case *types.Var:
 		if x.Pkg() != nil {
